@@ -117,10 +117,28 @@ def min(a, axis=None, keepdims=False, split_every=None, out=None):
     )
 
 
+def _empty_along(x, axis):
+    """Empty result of reducing the size-0 block ``x`` (keepdims=True): the
+    reduced axes that are empty keep length 0, so that concatenation along
+    them ignores the block, the other reduced axes get length 1 and all other
+    axes keep their length.  Returns None if no reduced axis of ``x`` is empty,
+    i.e. if the reduction of the block is well defined.
+    """
+    if axis is None:
+        axis = tuple(range(x.ndim))
+    elif not isinstance(axis, (tuple, list)):
+        axis = (axis,)
+    axis = tuple(i % x.ndim for i in axis)
+    if not builtins.any(x.shape[i] == 0 for i in axis):
+        return None
+    shape = tuple(builtins.min(s, 1) if i in axis else s for i, s in enumerate(x.shape))
+    return np.empty_like(x, shape=shape)
+
+
 def chunk_min(x, axis=None, keepdims=None):
     """Version of np.min which ignores size 0 arrays"""
-    if x.size == 0:
-        return array_safe([], x, ndmin=x.ndim, dtype=x.dtype)
+    if x.size == 0 and (empty := _empty_along(x, axis)) is not None:
+        return empty
     else:
         return np.min(x, axis=axis, keepdims=keepdims)
 
@@ -143,8 +161,8 @@ def max(a, axis=None, keepdims=False, split_every=None, out=None):
 
 def chunk_max(x, axis=None, keepdims=None):
     """Version of np.max which ignores size 0 arrays"""
-    if x.size == 0:
-        return array_safe([], x, ndmin=x.ndim, dtype=x.dtype)
+    if x.size == 0 and (empty := _empty_along(x, axis)) is not None:
+        return empty
     else:
         return np.max(x, axis=axis, keepdims=keepdims)
 
@@ -286,16 +304,11 @@ def nanmin(a, axis=None, keepdims=False, split_every=None, out=None):
 
 
 def _nanmin_skip(x_chunk, axis, keepdims):
-    if x_chunk.size > 0:
-        with warnings.catch_warnings():
-            warnings.filterwarnings(
-                "ignore", "All-NaN slice encountered", RuntimeWarning
-            )
-            return np.nanmin(x_chunk, axis=axis, keepdims=keepdims)
-    else:
-        return asarray_safe(
-            np.array([], dtype=x_chunk.dtype), like=meta_from_array(x_chunk)
-        )
+    if x_chunk.size == 0 and (empty := _empty_along(x_chunk, axis)) is not None:
+        return empty
+    with warnings.catch_warnings():
+        warnings.filterwarnings("ignore", "All-NaN slice encountered", RuntimeWarning)
+        return np.nanmin(x_chunk, axis=axis, keepdims=keepdims)
 
 
 @derived_from(np)
@@ -319,16 +332,11 @@ def nanmax(a, axis=None, keepdims=False, split_every=None, out=None):
 
 
 def _nanmax_skip(x_chunk, axis, keepdims):
-    if x_chunk.size > 0:
-        with warnings.catch_warnings():
-            warnings.filterwarnings(
-                "ignore", "All-NaN slice encountered", RuntimeWarning
-            )
-            return np.nanmax(x_chunk, axis=axis, keepdims=keepdims)
-    else:
-        return asarray_safe(
-            np.array([], dtype=x_chunk.dtype), like=meta_from_array(x_chunk)
-        )
+    if x_chunk.size == 0 and (empty := _empty_along(x_chunk, axis)) is not None:
+        return empty
+    with warnings.catch_warnings():
+        warnings.filterwarnings("ignore", "All-NaN slice encountered", RuntimeWarning)
+        return np.nanmax(x_chunk, axis=axis, keepdims=keepdims)
 
 
 def mean_chunk(
